@@ -2,6 +2,7 @@ package main
 
 import (
 	"encoding/json"
+	"go/types"
 	"flag"
 	"fmt"
 	"os"
@@ -126,6 +127,15 @@ type Baseline struct {
 	Obligations map[string]BaselineEntry `json:"obligations"`
 }
 
+// NotDecided: contract obligations that the solvers cannot decide on the pinned tree (no defect known);
+// they are reported in the evidence and never counted as proved nor alarmed.
+type NotDecided struct {
+	Obligation string `json:"obligation"`
+	Reason     string `json:"reason"`
+}
+
+var notDecided map[string]string
+
 type KnownFinding struct {
 	Property   string `json:"property"`
 	Obligation string `json:"obligation"`
@@ -172,6 +182,7 @@ func buildAll(repo, verif string) (*runCtx, error) {
 		rc.obls = append(rc.obls, rep.Obls...)
 	}
 	rc.obls = append(rc.obls, w.lemmaObligations()...)
+	rc.obls = append(rc.obls, w.encapsulationObligations()...)
 	// contracts whose target does not exist
 	for _, k := range sortedKeys(w.cs.Funcs) {
 		c := w.cs.Funcs[k]
@@ -269,6 +280,12 @@ func cmdCheck(args []string) int {
 	}
 	var kfs []KnownFinding
 	loadJSON(filepath.Join(*verif, "known_findings.json"), &kfs)
+	var nds []NotDecided
+	loadJSON(filepath.Join(*verif, "baseline", "not_decided.json"), &nds)
+	notDecided = map[string]string{}
+	for _, n := range nds {
+		notDecided[n.Obligation] = n.Reason
+	}
 	rc, err := buildAll(*repo, *verif)
 	if err != nil {
 		fmt.Fprintln(os.Stderr, "TOOL ERROR:", err)
@@ -364,7 +381,7 @@ func checkProperty(rc *runCtx, p, tier string, seed int, verif string, bl Baseli
 		confirmed        bool
 	}
 	var viols []viol
-	var known []string
+	var known, notDec []string
 	var claimed, discharged int
 	var undecided []sample
 	samples := []sample{}
@@ -400,6 +417,8 @@ func checkProperty(rc *runCtx, p, tier string, seed int, verif string, bl Baseli
 			if len(samples) < 6 || (o.Kind != "panic" && len(samples) < 12) {
 				samples = append(samples, sm)
 			}
+		case notDecided[stableName(o.Name)] != "":
+			notDec = append(notDec, strings.TrimPrefix(o.Name, modulePath)+" — "+notDecided[stableName(o.Name)])
 		case isOpen:
 			known = append(known, fmt.Sprintf("KNOWN-FINDING: property=%s obligation=%s %s", p, strings.TrimPrefix(o.Name, modulePath), open[stableName(o.Name)].What))
 		case inBase || (o.Kind != "panic" && !strings.HasPrefix(o.Label, "nonnil.")):
@@ -488,6 +507,7 @@ func checkProperty(rc *runCtx, p, tier string, seed int, verif string, bl Baseli
 			"slowest_query":        slowest,
 			"samples":              samples,
 			"known_findings_open":  known,
+			"not_decided":          notDec,
 			"undecided_not_claimed": map[string]any{"count": len(undecided), "names": undecidedNames, "note": "panic-freedom obligations that are not in the baseline and did not discharge; not counted as proved, not alarmed"},
 			"modelling_flags":      flagged,
 			"unmodelled_callees":   unmodelled,
@@ -534,6 +554,9 @@ func trustedBase(rc *runCtx) []string {
 		}
 	}
 	tb = append(tb, "axioms about uninterpreted spec functions (used only through explicit ground instances): "+strings.Join(axioms, ", "))
+	for _, tn := range sortedKeys(rc.w.cs.Writers) {
+		tb = append(tb, "object invariant of "+tn+" assumed to be restored by the outside writers: "+strings.Join(rc.w.cs.Writers[tn], ", "))
+	}
 	tb = append(tb, "external functions treated as side-effect free with unconstrained results: "+strings.Join(rc.w.purePats, " "))
 	return tb
 }
@@ -591,4 +614,65 @@ func afterHash(s string) string {
 		return s[i+1:]
 	}
 	return s
+}
+
+// encapsulationObligations: fields of a type with an object invariant may only be written by methods of that type
+// (and by the constructor named in an ensures clause). One trivially true/false obligation per offending function.
+func (w *World) encapsulationObligations() []*Obl {
+	var out []*Obl
+	seen := map[string]bool{}
+	for _, iv := range w.cs.Invs {
+		tn := strings.TrimPrefix(iv.Type, "*")
+		if seen[iv.Pkg+"."+tn] {
+			continue
+		}
+		seen[iv.Pkg+"."+tn] = true
+		p := w.pkgByID[iv.Pkg]
+		if p == nil {
+			continue
+		}
+		obj := p.Types.Scope().Lookup(tn)
+		if obj == nil {
+			continue
+		}
+		st := obj.Type()
+		var offenders []string
+		for _, key := range sortedKeys(w.funcs) {
+			fn := w.funcs[key]
+			if len(fn.Blocks) == 0 || !storesToStruct(fn, st) {
+				continue
+			}
+			if fn.Signature.Recv() != nil && types.Identical(deref(fn.Signature.Recv().Type()), st) {
+				continue
+			}
+			if c := w.cs.Funcs[key]; c != nil && len(c.Ensures) > 0 { // constructor with an explicit contract
+				continue
+			}
+			allowed := false
+			for _, a := range w.cs.Writers[tn] {
+				if a == shortKey(key) {
+					allowed = true
+				}
+			}
+			if allowed {
+				continue
+			}
+			offenders = append(offenders, shortKey(key))
+		}
+		goal := "true"
+		if len(offenders) > 0 {
+			goal = "false"
+		}
+		e := &Enc{w: w, key: iv.Pkg + "::" + tn}
+		e.reset()
+		e.pass = 2
+		o := e.addObl("post", "encapsulation:"+tn, iv.Clause.Label, "true", goal)
+		if len(offenders) > 0 {
+			o.Extra = nil
+			o.Label = iv.Clause.Label
+			o.Name += ":written-by:" + strings.Join(offenders, ",")
+		}
+		out = append(out, o)
+	}
+	return out
 }
